@@ -66,8 +66,11 @@ def make_case(rng, thorough):
     b = [rng.randint(1, 7) / 16.0 * rng.choice([-1, 1]) for _ in range(3)]
     npts = 4
     path = [[a[k] + (b[k] - a[k]) * t / (npts - 1) for k in range(3)] for t in range(npts)]
+    # constructor options, drawn in combination (defaults: factor=VaspToTHz, symprec=1e-5, is_symmetry=True, dense svecs, no SNF)
+    ctor = dict(factor=rng.choice([None, 21.49068, 108.97077, 1.0, 521.47083]), symprec=rng.choice([1e-5, 1e-5, 1e-3, 1e-6]),
+                is_symmetry=rng.random() < 0.75, store_dense_svecs=rng.random() < 0.6, use_SNF_supercell=rng.random() < 0.3)
     return dict(cell=name, smat=smat, qs=qs, path=path, mesh=[rng.choice([2, 3]) for _ in range(3)],
-                nac=rng.choice([None, "gonze", "wang"]), length=rng.choice([6.0, 8.0, 11.0]))
+                nac=rng.choice([None, "gonze", "wang"]), length=rng.choice([6.0, 8.0, 11.0]), ctor=ctor)
 
 
 def build_phonon(case):
@@ -75,7 +78,10 @@ def build_phonon(case):
 
     lat, sym, pos, cen = gen.PROTOTYPES[case["cell"]]
     cell, _ = gen.make_cell(case["cell"])
-    ph = phonopy.Phonopy(cell, supercell_matrix=np.diag(case["smat"]), primitive_matrix="auto" if cen != "P" else "P", log_level=0)
+    kw = dict(case.get("ctor") or {})
+    if kw.get("factor") is None:
+        kw.pop("factor", None)
+    ph = phonopy.Phonopy(cell, supercell_matrix=np.diag(case["smat"]), primitive_matrix="auto" if cen != "P" else "P", log_level=0, **kw)
     ph.force_constants = gen.pair_fc(ph.supercell, 1.45 * nn_distance(ph.primitive))
     if case["nac"]:
         n = len(ph.primitive)
@@ -681,6 +687,8 @@ def main(run):
         c = make_case(rng, thorough)
         if k == 0:
             c["nac"] = None
+            # a non-default unit conversion factor in every run (together with iterated meshes, band paths, ...)
+            c["ctor"]["factor"] = rng.choice([21.49068, 108.97077, 1.0, 521.47083])
         if k == 1:
             c["nac"] = rng.choice(["gonze", "wang"])
         cases.append(c)
@@ -700,7 +708,8 @@ def main(run):
             ref = Reference(ph)
             R = run_paths(ph, ref, case, omp)
             run.count("case %s nac=%s build=%s" % (case["cell"], case["nac"], build))
-            info0 = dict(cell=case["cell"], smat=case["smat"], nac=case["nac"], build=build)
+            run.count("ctor %s" % ", ".join("%s=%s" % kv for kv in sorted((case.get("ctor") or {}).items())))
+            info0 = dict(cell=case["cell"], smat=case["smat"], nac=case["nac"], build=build, constructor_options=case.get("ctor"))
 
             # ---------- revision flags from behaviour (first opportunity), then checked everywhere
             if omp and rev["f1"] is None:
